@@ -1,7 +1,166 @@
 package main
 
-// hashApp records one application of the hash model H(x) on a path (DESIGN.md 1.6).
+// Symbolic cryptography (DESIGN.md 1.6).
+//
+// H = SHA-256.  On concrete input the real digest is computed.  On symbolic input
+// H(x) is 32 fresh bytes constrained, for every pair of applications on the path, by
+// functional consistency (x = y ⇒ H(x) = H(y)), encoded exactly with a skolem index.
+// Collision resistance (H(x) = H(y) ⇒ x = y) is instantiated on demand at indices the
+// harness names (vsym.HashInjective).
+
+import (
+	"crypto/sha256"
+	"fmt"
+	"go/types"
+)
+
 type hashApp struct {
-	in  SliceVal
-	out []*Term
+	in   SliceVal
+	out  []*Term
+	conc bool
+}
+
+type hashState struct {
+	chunks []SliceVal
+}
+
+func (e *Eng) hashStates() map[*Value]*hashState {
+	if e.path.hstates == nil {
+		e.path.hstates = map[*Value]*hashState{}
+	}
+	return e.path.hstates
+}
+
+func (e *Eng) newDigest() Value {
+	T := e.namedType("crypto/sha256", "digest")
+	v := e.zero(T)
+	p := &v
+	e.hashStates()[p] = &hashState{}
+	return Iface{T: types.NewPointer(T), V: p}
+}
+
+func (e *Eng) concat(chunks []SliceVal, name string) SliceVal {
+	tb := e.tb
+	total := tb.I64(0)
+	for _, c := range chunks {
+		total = tb.Add(total, c.Len)
+	}
+	o := e.newObj(total, name)
+	off := tb.I64(0)
+	for _, c := range chunks {
+		if c.Obj != nil {
+			e.bcopy(o, off, c.Len, c.Obj.cont, c.Off)
+		}
+		off = tb.Add(off, c.Len)
+	}
+	return SliceVal{o, tb.I64(0), total, total}
+}
+
+// hashOf applies the model H to a byte view.
+func (e *Eng) hashOf(in SliceVal) []*Term {
+	tb := e.tb
+	p := e.path
+	if b, ok := e.concBytes(in); ok {
+		d := sha256.Sum256(b)
+		out := make([]*Term, 32)
+		for i := range out {
+			out[i] = tb.Const(8, uint64(d[i]))
+		}
+		p.hashes = append(p.hashes, &hashApp{in: in, out: out, conc: true})
+		return out
+	}
+	n := len(p.hashes)
+	out := make([]*Term, 32)
+	for i := range out {
+		out[i] = tb.Var(fmt.Sprintf("H!%d[%d]", n, i), 8)
+	}
+	app := &hashApp{in: in, out: out}
+	for j, prev := range p.hashes {
+		// out ≠ prev.out ⇒ inputs differ (length, or content at a skolem index)
+		var eqs []*Term
+		for i := 0; i < 32; i++ {
+			eqs = append(eqs, tb.Eq(out[i], prev.out[i]))
+		}
+		k := tb.Var(fmt.Sprintf("hk!%d!%d", n, j), 64)
+		differ := tb.Or(tb.BNot(tb.Eq(in.Len, prev.in.Len)),
+			tb.And(tb.Ult(k, in.Len), tb.BNot(tb.Eq(e.sliceAt(in, k), e.sliceAt(prev.in, k)))))
+		e.assertPC(tb.Or(tb.And(eqs...), differ))
+	}
+	p.hashes = append(p.hashes, app)
+	return out
+}
+
+func (e *Eng) outSlice(out []*Term) SliceVal { return e.termsSlice(out, "digest") }
+
+func init() {
+	reg := func(name string, f intrinsic) { intrinsics[name] = f }
+	reg("(crypto.Hash).New", func(fr *frame, a []Value) Value {
+		e := fr.e
+		h := a[0].(*Term)
+		if !h.IsConst() || h.C != 5 { // crypto.SHA256
+			e.unsupported("crypto.Hash(%v).New: only SHA-256 is modelled", h)
+		}
+		return e.newDigest()
+	})
+	reg("crypto/sha256.New", func(fr *frame, a []Value) Value { return fr.e.newDigest() })
+	reg("(crypto.Hash).Size", func(fr *frame, a []Value) Value {
+		e := fr.e
+		h := a[0].(*Term)
+		sizes := map[uint64]int64{3: 20, 4: 28, 5: 32, 6: 48, 7: 64, 2: 16}
+		if h.IsConst() {
+			if s, ok := sizes[h.C]; ok {
+				return e.tb.I64(s)
+			}
+		}
+		e.unsupported("crypto.Hash.Size of %v", h)
+		return nil
+	})
+	reg("(crypto.Hash).Available", func(fr *frame, a []Value) Value {
+		h := a[0].(*Term)
+		return fr.e.tb.Bool(h.IsConst() && h.C == 5)
+	})
+	reg("(*crypto/sha256.digest).Write", func(fr *frame, a []Value) Value {
+		e := fr.e
+		st := e.hashStates()[a[0].(*Value)]
+		if st == nil {
+			e.unsupported("sha256 digest not created through the model")
+		}
+		p := a[1].(SliceVal)
+		if p.Obj != nil {
+			st.chunks = append(st.chunks, e.freeze(p, "hashchunk"))
+		}
+		return Tuple{p.Len, Iface{}}
+	})
+	reg("(*crypto/sha256.digest).Sum", func(fr *frame, a []Value) Value {
+		e := fr.e
+		st := e.hashStates()[a[0].(*Value)]
+		if st == nil {
+			e.unsupported("sha256 digest not created through the model")
+		}
+		in := a[1].(SliceVal)
+		out := e.hashOf(e.concat(st.chunks, "hashinput"))
+		return e.appendBytes(in, e.outSlice(out))
+	})
+	reg("(*crypto/sha256.digest).Size", func(fr *frame, a []Value) Value { return fr.e.tb.I64(32) })
+	reg("(*crypto/sha256.digest).BlockSize", func(fr *frame, a []Value) Value { return fr.e.tb.I64(64) })
+	reg("(*crypto/sha256.digest).Reset", func(fr *frame, a []Value) Value {
+		e := fr.e
+		if st := e.hashStates()[a[0].(*Value)]; st != nil {
+			st.chunks = nil
+		}
+		return nil
+	})
+	reg("crypto/sha256.Sum256", func(fr *frame, a []Value) Value {
+		e := fr.e
+		in := a[0].(SliceVal)
+		if in.Obj == nil {
+			in = e.concSlice(nil)
+		}
+		out := e.hashOf(e.freeze(in, "hashinput"))
+		o := e.newObj(e.tb.I64(32), "sum256")
+		for i, t := range out {
+			e.bwrite(o, e.tb.I64(int64(i)), t)
+		}
+		return BArr{o}
+	})
 }
